@@ -357,7 +357,7 @@ def write_evidence(pid, tier, seed, t0, e1, bundles, relevant, nontrivial, sampl
         json.dump(ev, f, indent=1)
 
 
-PLAN_LEVEL = {}
+PLAN_LEVEL = {"C08": "exploration", "C15": "exploration"}
 
 
 def replay(pid, path):
